@@ -333,6 +333,19 @@ def case_twin(c):
         V('twin_ts', 'ts differ')
     # frequency -> index must not depend on the orientation flag: compared at EXACT half-channel ties too (which
     # neighbour a tie resolves to is not decided -- that both orientations of the same band agree is)
+    # the same frequencies in the container forms a caller holds them in: what one orientation accepts the other accepts, with the same answer
+    for form, mk in (('list', list), ('tuple', tuple), ('array', np.array)):
+        arg = mk([float(a.fs[0]), float(a.fs[n // 2]), float(a.fs[-1])])
+        outs = []
+        for fr_ in (a, d):
+            try:
+                outs.append(('ok', [int(x) for x in np.asarray(fr_.get_index(arg)).ravel()]))
+            except Exception as e:
+                outs.append(('raised', type(e).__name__))
+        want_a = [0, n // 2, n - 1]
+        if outs[0] != outs[1] and not (outs[0][0] == 'ok' and outs[1][0] == 'ok' and outs[0][1] == want_a and outs[1][1] == [n - 1 - k for k in want_a]):
+            V('twin_index_form', 'get_index(%s of three channel frequencies): ascending frame %r, descending frame of the same band %r'
+              % (form, outs[0], outs[1]))
     if a.fmin == d.fmin and np.array_equal(a.fs, d.fs):
         probes = []
         for i in range(n):
